@@ -364,6 +364,9 @@ Section CG.
     | S fuel' =>
       let iter := (iter + 1)%Z in
       let bknum := vdot r r in
+      (* if (bknum == 0.0) { err = 0.0; break; }   (after the fix "PMF integration returned NaN when the initial guess
+         already solved the system exactly"): the residual is exactly zero, nothing is left to do *)
+      if neqb O bknum (n0 O) then ((x, r), (iter, n0 O)) else
       let p := if (iter =? 1)%Z then tab r
                else tab (fun q => nadd O (nmul O (ndiv O bknum bkden) (p q)) (r q)) in
       let z := tab (A p) in
